@@ -10,10 +10,11 @@
 //	undoMissingPanics             UndoBlockTxs does not go on when undo/<height> cannot be read
 //	scratchUnderLock              SerializeC touches its package-level scratch slices only while it holds the package mutex
 //
-// The facts are found by role, not by name: the flag is "the variable set to true where TrustedTxChecker's answer is
-// tested", the scratch slices are "the package-level slices SerializeC writes", and so on; renamings and extracted
-// helpers do not change them. A fact is `false` when the source has the other shape; the generator exits non-zero
-// only when it cannot find the code at all.
+// The extractors look for the PRESENCE AND POSITION OF SYNTAX at named places (the flag is "the variable set to true
+// where TrustedTxChecker's answer is tested", the scratch slices are "the package-level slices SerializeC writes", …);
+// they are not a semantics of Go. strict.go adds a conservative pass that demands today's exact small shape at each
+// place (anything else ⇒ the fact is false ⇒ the theorems resting on it stop building ⇒ broken tie). What neither pass
+// sees is listed in manifest.d/C04.json. The generator exits non-zero only when it cannot find the code at all.
 package main
 
 import (
@@ -414,6 +415,19 @@ func main() {
 	witness := poolHookFact()         // round4.go
 	owned := ownershipFact()          // round4.go
 	cbHashed, cbPlain := txListFacts() // round4.go
+	// strict.go: the conservative second pass — a place that no longer has exactly today's small shape does not establish its fact
+	sFlag := strictFlag()
+	sUndoW, sUndoR := strictUndo()
+	sScratch, sFree := strictUtxo()
+	sHook := strictHook()
+	sMarks := strictMarks()
+	note("strict pass: flag %v, undo writer %v, undo reader %v, scratch %v, Memory_Free %v, pool hook %v, coinbase marks %v", sFlag, sUndoW, sUndoR, sScratch, sFree, sHook, sMarks)
+	perTx = perTx && sFlag
+	written = written && sUndoW && sUndoR // (the model uses ONE height for the file's name on both sides)
+	locked = locked && sScratch
+	witness = witness && sHook
+	owned = owned && sFree
+	cbHashed, cbPlain = cbHashed && sMarks, cbPlain && sMarks
 	var sb strings.Builder
 	sb.WriteString("/- GENERATED by go/cmd/gen_c04 from lib/chain/chain_accept.go, lib/utxo/*.go, lib/btc/block.go, client/txpool/*.go — do not edit; not in git.\n")
 	for _, n := range notes {
